@@ -193,6 +193,22 @@ fn comp_probes(r: &mut Sm, kind: &CK) -> Vec<Vec<f64>> {
             out.push(b.iter().map(|p| fin(p.0, -7.0) - 1.0).collect());
             out.push(b.iter().map(|p| fin(p.1, 7.0) + 1.0).collect());
             out.push(b.iter().map(|p| fin(p.0, -1.0) / 2.0 + fin(p.1, 1.0) / 2.0).collect());
+            // exactly one coordinate outside (first, middle, last), the others inside
+            if *n >= 2 {
+                let mid: Vec<f64> = b.iter().map(|p| fin(p.0, -1.0) / 2.0 + fin(p.1, 1.0) / 2.0).collect();
+                for idx in [0, *n / 2, *n - 1] {
+                    if b[idx].1.is_finite() {
+                        let mut p = mid.clone();
+                        p[idx] = b[idx].1 + (1.0 + b[idx].1.abs()) * 0.5;
+                        out.push(p);
+                    }
+                    if b[idx].0.is_finite() {
+                        let mut p = mid.clone();
+                        p[idx] = b[idx].0 - (1.0 + b[idx].0.abs()) * 0.5;
+                        out.push(p);
+                    }
+                }
+            }
             out.push(vec![1e308; *n]);
             out.push(vec![-1e308; *n]);
             out.push(vec![0.0; *n]);
